@@ -251,6 +251,22 @@ CHECKS.update({
         design="4 C14"),
 })
 
+CHECKS.update({
+    "C12": dict(
+        text="ShredAuth.tla: a commitment algebra over ideal signatures and the ideal hash of Merkle.tla; the implementation-shaped "
+             "try_new is shown equal to the declarative ValidShred / EquivocationProof on every enumerated case "
+             "(AcceptedImpliesSigned, AlteredRejected, CacheOnlyShortcutsIdentical, TwoCommitmentsReported, "
+             "CorrectLeaderNeverAccused); the block store of one slot is explored over every arrival order of honest shreds, relay "
+             "mutants and a Byzantine leader's conflicting signed slices: a correct leader is never flagged, no second commitment "
+             "is stored for a slice, conflicts are reported. Every case (all field mutations incl. each proof element, index "
+             "aliases, cross-slot/slice/index replays x cached commitment none/identical/different) and every sequence is "
+             "replayed into real shreds, ValidatedShred::try_new and BlockstoreImpl.",
+        note="mutation/replay/cache case structure exhaustive at the real width (thorough: all 64 positions x all index targets), "
+             "arrival orders at <= 8 shreds per slice; ideal crypto in the spec; one slot, <= 2 slices; repair path not driven; " + TB,
+        technique="TLA+ spec (commitment algebra + block-store state machine) + TLC exhaustive exploration and case/sequence enumeration + spec->code replay",
+        design="4 C12"),
+})
+
 NOT_YET = {
     "C01": "check not built yet in this round (abstract protocol model + simulator planned, DESIGN 4 C01)",
     "C02": "check not built yet in this round (DESIGN 4 C02)",
